@@ -399,7 +399,7 @@ Proof.
   destruct (proj1 G5) as (W5 & IE5 & IV5 & VR5).
   split; [exact W5|]. split; [exact VR5|]. split; [reflexivity|].
   split; [apply G15; exact P1|]. split; [exact IE5|]. split; [exact IV5|].
-  split; [apply (@freq_ok u f b F g5); auto; apply G15|].
+  split; [exact (@freq_ok u f b F g5 Wf Hknown Has1 (proj2 G15) IE5)|].
   split; [|split; [|reflexivity]].
   - intros c [<-|Ic].
     + apply (@has_fn_mono (stage1 f) g5 f); [apply G15|exact Has1].
